@@ -22,6 +22,7 @@
  *      C01  no failure at all, only LEGAL short transfers: one read(2) or write(2) moves fewer bytes than asked
  *           for (1, half, all but one) and nothing fails: every operation returns OK, every read is right, and
  *           after close/kill + reopen everything acknowledged is there
+ *      C09  every call returns: only runs that do not complete (no enabled thread / step limit) are reported
  *      C04  batch atomicity: reads during the run and the contents after close/kill + reopen are the
  *           fold of SOME set of whole batches (which ones is C12's and C02/C03's business)
  *      C13  after every operation every table of the current version exists in the directory; at the end of
@@ -44,7 +45,7 @@ static const char *DB = "/vfs/db";
 
 static kcfg_t cfg;
 static int do_persistent = 0, do_depth2 = 0;
-static int prop_mode = 12;   /* 12, 1, 4, 13, 17 */
+static int prop_mode = 12;   /* 12, 1, 4, 9, 13, 17 */
 static vcall_t *calllog;
 static long ncalllog;
 static uint64_t n_hist, n_sites, n_runs, n_reopens, n_fired, n_notfired, n_err_status_ops, n_open_failed_in_run;
@@ -88,6 +89,8 @@ fail(frun_t *r, const char *sig, const char *msg) {
   if (prop_mode == 4 && strcmp(sig, "batch-not-atomic-after-fault") && strcmp(sig, "batch-not-atomic-during-fault"))
     return;
   if (prop_mode == 13 && strcmp(sig, "reachable-file-removed"))
+    return;
+  if (prop_mode == 9 && strcmp(sig, "hang-after-fault") && strcmp(sig, "stuck-after-fault"))
     return;
   if (prop_mode == 17 && strcmp(sig, "manifest-replay-differs") && strcmp(sig, "current-dangling"))
     return;
@@ -648,7 +651,7 @@ main(int argc, char **argv) {
   cfgs = drv_opt("cfgs", "B1");
   {
     const char *pm = drv_opt("prop", "C12");
-    prop_mode = !strcmp(pm, "C01") ? 1 : !strcmp(pm, "C04") ? 4 : !strcmp(pm, "C13") ? 13 : !strcmp(pm, "C17") ? 17 : 12;
+    prop_mode = !strcmp(pm, "C09") ? 9 : !strcmp(pm, "C01") ? 1 : !strcmp(pm, "C04") ? 4 : !strcmp(pm, "C13") ? 13 : !strcmp(pm, "C17") ? 17 : 12;
   }
   add_op("P0.1");
   add_op("P1.1!");
